@@ -126,7 +126,10 @@ func (i *Interpreter) eval(expr ast.Expr, env *environment.Environment, isRepl b
 	case *ast.ObjectLiteral:
 		properties := make(map[string]interface{})
 
-		for key, valueExpr := range e.Properties {
+		// initialisers run in source order (ranging over the map would run them in Go's
+		// randomised map order)
+		for _, key := range e.Keys {
+			valueExpr := e.Properties[key]
 			value, signal := i.eval(valueExpr, env, isRepl)
 			if signal.Type != ControlFlowNone {
 				return nil, signal
